@@ -182,9 +182,13 @@ def r2_tallies(repo, report):
     body = strip_docstring(ab.body)
     ok = False
     facts = {}
+    upper = None
     if len(body) == 1 and isinstance(body[0], ast.Return):
         e = body[0].value
         facts["returns"] = src(e)
+        upper = False
+        if isinstance(e, ast.Call) and isinstance(e.func, ast.Attribute) and e.func.attr == "upper" and not e.args:
+            upper, e = True, e.func.value
         if isinstance(e, ast.Subscript) and isinstance(e.slice, ast.Slice) and chain(e.value) == "self.sequence" and e.slice.lower is not None and e.slice.upper is not None and e.slice.step is None:
             from .c03 import _lin_of
 
@@ -196,6 +200,17 @@ def r2_tallies(repo, report):
             ok = False
     report.ob("C20.R2", "RemoveAfterMatch.adjacent_base", ok, facts=facts, expected="self.sequence[self.rstart - 1 : self.rstart] (a slice: empty when the match starts at position 0)", loc=repo.loc(ab),
               why="" if ok else "the adjacent base is not the one-base slice before the match (an index would wrap around to the last base for rstart == 0)")
+    # the tallies are dictionaries keyed by the upper-case letters (EndStatistics: 'A','C','G','T',''); the aligner compares
+    # case-insensitively, so a read may hold a lower-case base there: it has to be looked up under its letter
+    c_es, es_init = repo.need_method("EndStatistics", "__init__")
+    keys = [constfold_keys for n_ in ast.walk(es_init) if isinstance(n_, ast.Assign) and chain(n_.targets[0]) == "self.adjacent_bases" and isinstance(n_.value, ast.Dict)
+            for constfold_keys in [[k.value for k in n_.value.keys if isinstance(k, ast.Constant)]]]
+    upper_keys = bool(keys) and all(k == k.upper() for k in keys[0])
+    lookups_upper = upper is True or all(any(isinstance(x, ast.Call) and isinstance(x.func, ast.Attribute) and x.func.attr == "upper" for x in ast.walk(m_))
+                                         for cn_ in ("BackAdapterStatistics", "LinkedAdapterStatistics", "AnywhereAdapterStatistics") for m_ in [repo.method(cn_, "add_match")[1]] if m_ is not None)
+    report.ob("C20.R2", "the base before a 3' match is tallied under its letter whatever its case", (not upper_keys) or lookups_upper, facts={"tally_keys": keys[0] if keys else None, "adjacent_base_upper_cased": bool(upper)}, loc=repo.loc(ab),
+              expected="adjacent_base() (or every add_match) upper-cases the base before it is used as a key of the upper-case tally",
+              why="" if ((not upper_keys) or lookups_upper) else "a lower-case base (soft-masked input) is not a key of the tally: it is counted as 'none/other', so the adjacent-base statistics are not the tally of the matches applied")
     # create_statistics: each adapter class creates the statistics class of its own side
     want = {"FrontAdapter": "FrontAdapterStatistics", "BackAdapter": "BackAdapterStatistics", "AnywhereAdapter": "AnywhereAdapterStatistics", "LinkedAdapter": "LinkedAdapterStatistics"}
     for cname, sname in want.items():
